@@ -1,6 +1,7 @@
 import CacheVerif.Props.C11
 import CacheVerif.Proofs.LeafBits
 import CacheVerif.Proofs.DeepLoad
+import CacheVerif.Proofs.DeepLoadM
 /-!
 # C10 — keys are matched by Go equality for every comparable key type
 
@@ -133,5 +134,64 @@ example : Deep.T.call 8 exHeap Gen.Deep.T_MapOf_Load [.key 257] = some [.val 70,
 example : Deep.T.call 8 exHeap Gen.Deep.T_MapOf_Load [.key 515] = some [.val 30, .bool true] := by rfl
 example : Deep.T.call 8 exHeap Gen.Deep.T_MapOf_Load [.key 129] = some [.zeroV, .bool false] := by rfl
 example : Deep.T.call 8 exHeap Gen.Deep.T_MapOf_Load [.key 2] = some [.zeroV, .bool false] := by rfl
+
+/-! ### the lookup path of the string-keyed `Map`, printed from the source -/
+
+omit [Inhabited V] in
+/-- **the top-hash filter only pre-selects**: over any chain of `Map` buckets whose stored top hashes match the keys in
+their slots, testing `topHashMatch` on the three slots and comparing keys only where it holds finds exactly the first slot
+whose key `==` the argument - for every hash function; a stale match on a free slot is rejected by the nil check -/
+theorem C10_tophash_search_is_key_search (hashOf : K → BitVec 64) (key : K) (c : List (Model.Words.BucketM K V))
+    (hrep : ∀ b ∈ c, Model.Words.RepM hashOf b) :
+    Model.Words.searchChainM key (hashOf key) c = lookup key (Model.Words.flatM c) :=
+  Proofs.Words.searchChainM_eq hashOf key c hrep
+
+omit [Inhabited V] in
+/-- **the text of `Map.Load` computes that search** (three-clause `for` with `continue`, labelled three-read snapshot whose
+`goto` is never taken sequentially, walk along `next`); never stuck -/
+theorem C10_source_mapload_is_tophash_search (fuel : Nat) (hf : 4 ≤ fuel) (h : Deep.T.Heap K V) (key : K)
+    (c : List (Model.Words.BucketM K V))
+    (hc : h.mchains[(Proofs.DeepLoadM.mbidxOf h key).toNat]? = some c) (hne : c ≠ []) (hfuel : c.length ≤ fuel)
+    (hlen : ∀ b ∈ c, b.slots.length = 3) :
+    Deep.T.call fuel h Gen.Deep.T_Map_Load [.key key] =
+      some (match Model.Words.searchChainM key (Proofs.DeepLoadM.mhashOf h key) c with
+        | some v => [.val v, .bool true]
+        | none => [.zeroV, .bool false]) :=
+  Proofs.DeepLoadM.mload_eq_search fuel hf h key c hc hne hfuel hlen
+
+/-- **the text of `Map.Load` is the `load` step of the table model M3** (Map variant) -/
+theorem C10_source_mapload_is_model_load (fuel : Nat) (hf : 4 ≤ fuel) (h : Deep.T.Heap K V) (m : St K V) (env : Env K)
+    (key : K) (p : Nat) (hp : p < 64) (hlen : h.mchains.length = 2 ^ p)
+    (htbl : m.tbl.chains = h.mchains.map Model.Words.flatM) (hseed : m.tbl.seed = h.seed) (hhash : env.hash = h.hasher)
+    (hne : ∀ c ∈ h.mchains, c ≠ []) (hfuel : ∀ c ∈ h.mchains, c.length ≤ fuel)
+    (hrep : ∀ c ∈ h.mchains, ∀ b ∈ c, Model.Words.RepM (Proofs.DeepLoadM.mhashOf h) b) :
+    Deep.T.call fuel h Gen.Deep.T_Map_Load [.key key] =
+      some (match (step mapVariant env m (.load key)).2.out with
+        | .val v true => [.val v, .bool true]
+        | _ => [.zeroV, .bool false]) :=
+  Proofs.DeepLoadM.mload_is_model_load fuel hf h m env key p hp hlen htbl hseed hhash hne hfuel hrep
+
+/-! Non-vacuity: one chain of two `Map` buckets; keys 5 and 7 in the root bucket, key 2 in the third slot of the overflow
+bucket, key 9 absent; the top hashes are the ones `storeTopHash` writes. -/
+def exHash (k : Nat) : BitVec 64 := BitVec.ofNat 64 k <<< 44
+def exHeapM : Deep.T.Heap Nat Nat :=
+  { chains := [], seed := 0#64, hasher := fun k _ => exHash k,
+    mchains := [[⟨Gen.storeTopHash (exHash 7) (Gen.storeTopHash (exHash 5) 0#64 0) 1, [some (5, 50), some (7, 70), none]⟩,
+                 ⟨Gen.storeTopHash (exHash 2) 0#64 2, [none, none, some (2, 20)]⟩]] }
+
+example : exHeapM.mchains.length = 2 ^ 0 ∧ (∀ c ∈ exHeapM.mchains, c ≠ []) ∧ (∀ c ∈ exHeapM.mchains, c.length ≤ 4) := by
+  decide
+
+example : ∀ c ∈ exHeapM.mchains, ∀ b ∈ c, Model.Words.RepM (Proofs.DeepLoadM.mhashOf exHeapM) b := by
+  simp only [exHeapM, List.mem_cons, List.mem_nil_iff, or_false, forall_eq_or_imp, forall_eq]
+  refine ⟨?_, ?_⟩ <;> refine ⟨by decide, ?_⟩ <;> intro i hi <;>
+    (obtain rfl | rfl | rfl : i = 0 ∨ i = 1 ∨ i = 2 := by
+      simp only [Gen.entriesPerMapBucket] at hi; omega) <;>
+    simp only [List.getD_cons_zero, List.getD_cons_succ] <;> first | exact trivial | decide
+
+example : Deep.T.call 4 exHeapM Gen.Deep.T_Map_Load [.key 5] = some [.val 50, .bool true] := by rfl
+example : Deep.T.call 4 exHeapM Gen.Deep.T_Map_Load [.key 7] = some [.val 70, .bool true] := by rfl
+example : Deep.T.call 4 exHeapM Gen.Deep.T_Map_Load [.key 2] = some [.val 20, .bool true] := by rfl
+example : Deep.T.call 4 exHeapM Gen.Deep.T_Map_Load [.key 9] = some [.zeroV, .bool false] := by rfl
 
 end Props.C10
